@@ -132,15 +132,17 @@ def bfs(modname, tier, params, depth, budget_s=None, max_states=None, dedup=True
     capped = None
     fixpoint = False
     try:
-        for level in range(depth + 1):
+        level = 0
+        while level <= depth:
             expand = level < depth
             n = len(frontier)
             if n == 0:
-                fixpoint = True
+                fixpoint = capped is None
                 break
             csize = max(1, min(200, n // (NPROC * 4) + 1))
             chunks = [(frontier[i:i + csize], expand) for i in range(0, n, csize)]
             nxt = []
+            aborted = False
             for res in pool.imap(_work, chunks):
                 if res[0] == "error":
                     raise RuntimeError("worker failed:\n" + res[1])
@@ -150,17 +152,26 @@ def bfs(modname, tier, params, depth, budget_s=None, max_states=None, dedup=True
                     if (d not in seen) if dedup else True:
                         seen[d] = None
                         nxt.append(h)
+                if budget_s is not None and time.time() - t0 > 2 * budget_s:
+                    # a level that alone exceeds twice the budget is abandoned (what it found so far is kept)
+                    capped = "time budget %ss exceeded twice inside level %d: level abandoned" % (budget_s, level)
+                    aborted = True
+                    break
+            if aborted:
+                break
             levels.append(n)
             if collect is not None:
                 collect.extend(frontier)
             frontier = nxt
-            if budget_s is not None and time.time() - t0 > budget_s and expand and level + 1 < depth:
-                capped = "time budget %ss reached after completing level %d" % (budget_s, level)
-                # the next level's states were generated but not all checked: check them, do not expand
-                depth = level + 1
-            if max_states is not None and len(seen) > max_states and level + 1 < depth:
-                capped = "state budget %d reached after completing level %d" % (max_states, level)
-                depth = level + 1
+            if expand and level + 1 < depth:
+                if budget_s is not None and time.time() - t0 > budget_s:
+                    capped = "time budget %ss reached after completing level %d" % (budget_s, level)
+                    # the next level's states were generated: they are checked, not expanded
+                    depth = level + 1
+                elif max_states is not None and len(seen) > max_states:
+                    capped = "state budget %d reached after completing level %d" % (max_states, level)
+                    depth = level + 1
+            level += 1
     finally:
         pool.terminate()
         pool.join()
